@@ -85,7 +85,7 @@ PROPS = {
                     'EvalPanic::parse and build (panic record wiring to outputs): bounded differential search only'],
     ),
     'C16': dict(
-        units=[],
+        units=['regcirc'],
         deps=[],
         kani=[
             dict(name='c16_register_eval_safe_2', fn='register_circuit::Circuit::{validate,eval}', max_items=2, label='bounded',
@@ -95,10 +95,19 @@ PROPS = {
         ],
         witness=['c16', '--depth', '1', '--random', '300000'],
         witness_thorough=['c16', '--depth', '2', '--random', '3000000'],
-        level='other',
-        technique='Kani harnesses on the real validate/eval (validate()==Ok as precondition of eval; executable valid_spec predicate as '
-                  'postcondition of validate), bounded; plus exhaustive small-scope enumeration of SSA and register circuits on the real code',
-        claim='BOUNDED (not a proof for all circuits). Register circuits: Kani/CBMC proves for every circuit with <= 2 instructions, <= 2 parties x '
+        level='proof',
+        technique='Verus contracts on the real register_circuit::Circuit::validate / eval (and the Index<Reg> / IndexMut<Reg> impls they use): validate()==Ok '
+                  'implies the well-definedness predicate, which is the precondition under which every index operation of eval is proved in bounds; '
+                  'for SSA circuits Kani-free bounded stand-in: exhaustive small-scope enumeration on the real code',
+        claim='Register circuits - deductive proof (Verus/Z3), for every circuit value however obtained (all sizes, all register / party / input indices): '
+              'validate() returns Ok only if every instruction writes a register below max_reg_count, reads only registers below max_reg_count that an '
+              'earlier instruction has written, every input instruction names an existing bit of an existing party, there is an output, and every '
+              'output register exists and has been written (valid_spec); under valid_spec and inputs of the declared shape, eval never indexes out '
+              'of bounds, never reaches one of its panics, and returns exactly one bit per output (Verus proves the precondition of every index '
+              'operation, including the user-defined Index<Reg> / IndexMut<Reg> impls, extracted too); validate itself does not panic. '
+              'SSA circuits - BOUNDED, not a proof: Circuit::validate / eval iterate through impl-Iterator chains (wires().enumerate(), iter().map(..).collect()) '
+              'outside the supported subset, and CBMC runs out of memory on them (measured); stand-in below. Additionally (bounded, kept as a cross-check '
+              'of the register proof): Kani/CBMC proves for every register circuit with <= 2 instructions, <= 2 parties x '
               '<= 2 bits, <= 2 outputs and full-range u32 register/party/input indices that validate()==Ok implies (a) eval on inputs of the '
               'declared shape does not panic and returns one bit per output, (b) the executable well-definedness predicate valid_spec_reg '
               '(every read register exists and was written, every input instruction names an existing bit, outputs written). SSA circuits: CBMC '
@@ -106,11 +115,14 @@ PROPS = {
               'enumeration (all SSA and register circuits with <= 1 (quick) / <= 2 (thorough) gates over 7 party shapes incl. empty parties, '
               'indices incl. out-of-range) plus random deeper circuits: every accepted circuit is evaluated on every input and compared with a '
               'reference interpreter that refuses undefined reads.',
-        note='Trusted: Kani/CBMC (Rust->GOTO translation, no termination checking), the reference interpreters and valid_spec_reg in '
+        note='Trusted (Verus part): derived PartialEq / PartialOrd of Reg(u32) compare the field (external_body impls); Iterator::all for `== 0` modelled by a '
+             'verified helper (R15); map + collect written as the loop it denotes (R16); `as u32` truncation is not above the original value (proved by '
+             'bit_vector); vstd Vec / slice / iterator specs; rules R0, R1, R3, R15-R18. Trusted (bounded part): Kani/CBMC (Rust->GOTO translation, no termination checking), the reference interpreters and valid_spec_reg in '
              'kani/src/decode.rs. validate() panicking by itself (max_reg_count == 0 with instructions) is outside the statement and excluded by '
              'an explicit assume in the harness. "Validation accepts every compiler / conversion output" is checked under C10 (conversion) only.',
-        title='a validated circuit can be evaluated safely (bounded: Kani for register circuits, exhaustive small-scope enumeration for both kinds)',
-        unverified=['unbounded circuit sizes', 'SSA Circuit::validate / eval under Kani (out of memory): enumeration only',
+        title='a validated register circuit can be evaluated safely (proved for all circuits); SSA circuits by exhaustive small-scope enumeration (bounded)',
+        unverified=['SSA Circuit::validate / eval (impl-Iterator chains; Kani out of memory): enumeration only, bounded',
+                    '"validation accepts every compiler / conversion output": checked under C10 (conversion) and by the enumeration only',
                     'Evaluator::run pre-checks of party count and bit counts'],
     ),
     'C03': dict(
